@@ -213,10 +213,13 @@ func selfValidate(prop string, r *Result, repo, verif string) {
 	var missed []string
 	var falseAlarms []string
 	nNeg := 0
+	var notReplayed []string
 	for _, x := range results {
 		if x.Kind == "refactoring" {
 			if x.Note != "" && !x.Detected {
-				continue // does not apply to this tree any more
+				// does not apply to (or no longer compiles on) this tree: the example has to be ported, it shows nothing
+				notReplayed = append(notReplayed, x.Name)
+				continue
 			}
 			nNeg++
 			if x.Detected {
@@ -232,7 +235,8 @@ func selfValidate(prop string, r *Result, repo, verif string) {
 	}
 	r.Extra["self_validation"] = map[string]interface{}{
 		"what":                     "replay of the positive examples on file for this property (seeded changes by independent sub-agents, parents of fix commits) through the same check, each on a scratch copy of the sources; not detected = recorded checker gap, never an alarm",
-		"replayed":                 len(results) - nNeg,
+		"replayed":                 len(results) - nNeg - len(notReplayed),
+		"negative_not_replayed":    notReplayed,
 		"detected":                 det,
 		"missed":                   missed,
 		"negative_examples":        nNeg,
@@ -240,5 +244,5 @@ func selfValidate(prop string, r *Result, repo, verif string) {
 		"false_alarms_on_negative": falseAlarms,
 		"results":                  results,
 	}
-	fmt.Printf("%s: self-validation replayed %d positive examples, %d detected, missed %v; %d refactorings, false alarms %v\n", prop, len(results)-nNeg, det, missed, nNeg, falseAlarms)
+	fmt.Printf("%s: self-validation replayed %d positive examples, %d detected, missed %v; %d refactorings, false alarms %v, not replayed (patch to be ported) %v\n", prop, len(results)-nNeg-len(notReplayed), det, missed, nNeg, falseAlarms, notReplayed)
 }
